@@ -60,6 +60,12 @@ CHECKS["C13"] = dict(level="exploration",
    technique="fault enumeration at yield points, conservation/quiescence oracle, linearizability check of recorded histories (porcupine)",
    design_ref="DESIGN.md §6 C13, Appendix F5")
 
+CHECKS["C20"] = dict(level="exploration",
+   text="3000 (quick) / 45000 (thorough) seed-determined cases: each generates an operation from the products schema (all root fields the mock service implements, field resolvers, @requires entity lookups, nested lists, unions/interfaces) and four reformulations (alias, subset, duplicate, reorder, fragments), and executes them against the real gRPC datasource the way production does - through the planner's own normalisation and DataSource.Load, and for a third of the cases through ExecutionEngine - over the repository's mock service behind a memoising transport (bufconn). Every Load result is judged by a shape oracle (response keys, nesting, list-ness, nullability, scalar kinds, __typename), a metamorphic oracle (every field position common to q and q' carries the same value; q' succeeds iff q succeeds) and a projection oracle against the recorded protobuf answers.",
+   note="Trusted: gqlparser (schema model, validity guard), the harness's CollectFields/shape walker and protobuf cursor, the memoising transport, grpctest.MockService + default mapping + product.proto as the service, the repository's normaliser/validator as the production front end. Raw named-fragment spreads / literals are outside the datasource's contract and never reach it un-normalised.",
+   technique="schema-driven operation generation, metamorphic reformulation testing, shape + projection oracles at the DataSource.Load boundary",
+   design_ref="DESIGN.md §6 C20")
+
 NOT_YET = {
 }
 
